@@ -15,6 +15,7 @@ RULE = ('case = (strategy, create/update rate limits, workload of stores incl. n
         'dropped + errored + still cached; non-trivial = execution with >=1 injected fault reached or >=1 dropped create; '
         'distinct = (workload, fault plan, interleaving)')
 RULE_MORE = (" Series names include '', names that are not valid tagged paths and names under CARBON_METRIC_PREFIX; 'lists' configurations run with USE_WHITELIST and lists matching half of the series.")
+RULE_MORE = RULE_MORE + ' Round 11: backend faults that are OSErrors carrying an errno (EINTR, EAGAIN, ENOSPC, EIO, EROFS, EMFILE, EACCES).'
 RULE = RULE + RULE_MORE
 EXHAUSTIVE = {'quick': True, 'thorough': True}
 EXHAUSTIVE_OVER = 'fault plans with <= k raises over the first n backend calls (n=8,k=2 quick; n=12,k=3 thorough) per workload'
